@@ -69,11 +69,41 @@ def run(ctx):
                 prov = np.array(owner, dtype=np.int_) if prov_kind == "ids1d" else np.array([[o, 1] for o in owner], dtype=np.int_)
             ylab = pd.Series(y) if prov_kind == "series" else y
             D = np.abs(X[:, None, 0] - Xv[None, :, 0]) + np.arange(n)[:, None] * 1e-3
-            datasets.append(dict(X=X, y=ylab, Xv=Xv, yv=yv, prov=prov, D=D))
+            meta = (nprng.rand(n, 1) < 0.6).astype(int)       # per-row training metadata ('trusted' flags) for the metadata-aware model
+            datasets.append(dict(X=X, y=ylab, Xv=Xv, yv=yv, prov=prov, D=D, meta=meta))
         from sklearn.pipeline import Pipeline
         from sklearn.preprocessing import StandardScaler
         model = KNeighborsClassifier(1) if rng.random() < 0.5 else Pipeline([("sc", StandardScaler()), ("knn", KNeighborsClassifier(1))])
         util_kind = rng.choice(["accuracy", "eqodds"])
+        meta_aware = rng.random() < 0.35
+        if meta_aware:
+            # a model that reads the training metadata it is handed (fits on the rows flagged 1 only): whatever metadata reaches it must be
+            # the metadata of THIS fit's rows - none when the current fit was given none
+            from sklearn.base import BaseEstimator, ClassifierMixin
+
+            class MetaKNN(BaseEstimator, ClassifierMixin, __import__("datascope.importance.common", fromlist=["x"]).ExtendedModelMixin):
+                def fit(self, X, y):
+                    self.inner_ = KNeighborsClassifier(1).fit(X, y)
+                    self.classes_ = self.inner_.classes_
+                    return self
+
+                def fit_extended(self, X, y, metadata=None, X_val=None, y_val=None, metadata_val=None):
+                    X, y = np.asarray(X), np.asarray(y)
+                    keep = np.asarray(metadata).reshape(len(X), -1)[:, 0] == 1 if metadata is not None else np.ones(len(X), dtype=bool)
+                    if not keep.any():
+                        keep = np.ones(len(X), dtype=bool)
+                    return self.fit(X[keep], y[keep])
+
+                def predict(self, X):
+                    return self.inner_.predict(X)
+
+                def predict_extended(self, X, metadata=None):
+                    return self.predict(X)
+
+                def predict_proba_extended(self, X, metadata=None):
+                    return self.inner_.predict_proba(X)
+            model = MetaKNN()
+            util_kind = "accuracy"
 
         def make_util(mdl):
             if util_kind == "eqodds":
@@ -82,7 +112,7 @@ def run(ctx):
         util = make_util(model)
         watched = {"model": model}
         for i, d in enumerate(datasets):
-            watched.update({"X%d" % i: d["X"], "y%d" % i: d["y"], "Xv%d" % i: d["Xv"], "yv%d" % i: d["yv"], "D%d" % i: d["D"]})
+            watched.update({"X%d" % i: d["X"], "y%d" % i: d["y"], "Xv%d" % i: d["Xv"], "yv%d" % i: d["yv"], "D%d" % i: d["D"], "meta%d" % i: d["meta"]})
             if d["prov"] is not None:
                 watched["prov%d" % i] = d["prov"]
         before = snap(watched)
@@ -91,6 +121,9 @@ def run(ctx):
             # the metric path of this utility (groupings derived from the validation features) is used by bruteforce; montecarlo is left out because
             # its mean_score subsamples half of the (tiny) validation set, which this utility rejects when only one class is drawn
             methods = ["bruteforce"] + [mth if mth != "montecarlo" else "neighbor" for mth in methods[1:]]
+
+        if meta_aware:
+            methods[0] = "bruteforce"          # only the coalition-evaluating methods fit the model (and so hand it metadata)
 
         def make(method, utility=None):
             kw = {}
@@ -107,15 +140,22 @@ def run(ctx):
         bad = False
         last_score = {}
         planned = [False] * len(objs)
+        with_meta = {}          # step -> was this fit given the dataset's metadata?
+        fit_meta = [None] * len(objs)
         for k in range(n_ops):
             o = rng.randrange(len(objs))
             if not planned[o] or rng.random() < 0.35:
                 di = rng.randrange(len(datasets))
+                with_meta[len(ops)] = bool(meta_aware and rng.random() < 0.5)
                 ops.append(("fit", o, di))
                 planned[o] = True
             else:
                 ops.append(("score", o, rng.randrange(len(datasets))))
-        case = dict(methods=methods, ops=ops, datasets=[dict(X=d["X"].tolist(), y=np.asarray(d["y"]).tolist(), Xv=d["Xv"].tolist(), yv=d["yv"].tolist(),
+        if meta_aware:
+            # the history opens with: fit WITH metadata, refit the same object on other data WITHOUT metadata, score
+            ops = [("fit", 0, 0), ("fit", 0, 1), ("score", 0, rng.randrange(len(datasets)))] + ops
+            with_meta = {0: True, 1: False, **{k + 3: v for k, v in with_meta.items()}}
+        case = dict(methods=methods, ops=ops, meta_aware=meta_aware, fits_given_metadata=sorted(k for k, v in with_meta.items() if v), datasets=[dict(X=d["X"].tolist(), y=np.asarray(d["y"]).tolist(), Xv=d["Xv"].tolist(), yv=d["yv"].tolist(),
                                                            prov=(np.asarray(getattr(d["prov"], "data", d["prov"])).tolist() if d["prov"] is not None else None)) for d in datasets])
         for k, (op, o, di) in enumerate(ops):
             d = datasets[di]
@@ -124,7 +164,8 @@ def run(ctx):
                     warnings.simplefilter("ignore")
                     if op == "fit":
                         objs[o].nn_distance = (lambda A, B, D=None: None)
-                        objs[o].fit(d["X"], d["y"], provenance=d["prov"])
+                        fit_meta[o] = d["meta"] if with_meta.get(k) else None
+                        objs[o].fit(d["X"], d["y"], metadata=fit_meta[o], provenance=d["prov"])
                         fitted[o] = di
                     else:
                         fd = datasets[fitted[o]]
@@ -140,7 +181,7 @@ def run(ctx):
                         import sklearn.base as _skb
                         fresh = make(methods[o], utility=make_util(_skb.clone(model)))      # fresh importance object AND fresh utility
                         fresh.nn_distance = lambda A, B, Dm=keep: Dm.copy()
-                        fs = list(np.asarray(fresh.fit(fd["X"], fd["y"], provenance=fd["prov"]).score(d["Xv"], d["yv"]), dtype=float))
+                        fs = list(np.asarray(fresh.fit(fd["X"], fd["y"], metadata=fit_meta[o], provenance=fd["prov"]).score(d["Xv"], d["yv"]), dtype=float))
                         if s != fs and not (methods[o] == "montecarlo"):
                             ctx.mismatch("score differs from a fresh object fitted on the same data (state leaked from earlier calls)", dict(case, step=k), impl=s, spec=fs)
                             bad = True
